@@ -89,3 +89,16 @@ def parse(pkt):
         d["connflags"] = body[7]
         d["clean"] = bool(body[7] & 2)
     return d
+
+
+def fnv1a32(data):
+    h = 0x811c9dc5
+    for b in data:
+        h = ((h ^ b) * 0x01000193) & 0xffffffff
+    return h
+
+
+def record(pkt, seq):
+    """a stored record as the client writes it: packet, storage sequence number (8 bytes LE), FNV-1a over both (4 bytes BE)"""
+    body = bytes(pkt) + seq.to_bytes(8, "little")
+    return body + fnv1a32(body).to_bytes(4, "big")
